@@ -14,8 +14,20 @@ correspondence check.
 """
 import ast, inspect
 from common import *
+import failclosed
 
 SRC = 'oslo_utils/fileutils.py'
+# the five helpers: one undecorated definition each, bound to its name at run time (their defaults are read from the live signature
+# and emitted); the library names they use are the real modules (tools/gen/failclosed.py)
+_A = failclosed.ANY
+_FC = {'src': SRC, 'mod': 'oslo_utils.fileutils',
+       'functions': {'ensure_tree': {'defaults': {'mode': _A}}, 'delete_if_exists': {'defaults': {'remove': 'os.unlink'}},
+                     'write_to_tempfile': {'defaults': {'path': 'None', 'suffix': _A, 'prefix': _A}},
+                     'compute_file_checksum': {'defaults': {'read_chunksize': _A, 'algorithm': _A}}, 'last_bytes': {'defaults': {}}},
+       'imports': {'os': 'os', 'errno': 'errno', 'tempfile': 'tempfile', 'hashlib': 'hashlib', 'time': 'time'}}
+# generate_code does not depend on the defaults (a call that omits an argument is translated to the default_* constant of generate_consts)
+FAILCLOSED = {'generate_consts': [_FC],
+              'generate_code': [dict(_FC, functions={q: {'defaults': None} for q in _FC['functions']})]}
 
 # ------------------------------------------------------------------ constants
 
@@ -31,6 +43,7 @@ def _sig_defaults(m, tree, fname):
 
 def generate_consts():
     import errno, os
+    failclosed.check_all(FAILCLOSED['generate_consts'])
     m = repo_import('oslo_utils.fileutils')
     tree = repo_ast(SRC)
     out = [HEADER % (SRC + ' (defaults) and the errno/os modules of the running interpreter (runtime tables)', 'tools/gen/gen_C20.py')]
@@ -596,6 +609,7 @@ def translate(tree, fname, params, returns_world, rty):
     return ''.join(t.aux) + 'Definition gen_%s%s (w : W) : %s :=\n%s.\n' % (fname, args, res, body)
 
 def generate_code():
+    failclosed.check_all(FAILCLOSED['generate_code'])
     tree = repo_ast(SRC)
     repo_import('oslo_utils.fileutils')
     out = [HEADER % (SRC, 'tools/gen/gen_C20.py (statement-level translation)')]
